@@ -1,5 +1,7 @@
 import WhVerif.Util.Proto
 import WhVerif.Model.C06
+import WhVerif.Model.C06Affine
+import WhVerif.Model.C06Filter
 namespace WhVerif.Driver.C06
 open Lean WhVerif.Proto WhVerif.C06
 
@@ -56,8 +58,153 @@ def fixes (j : Json) : Fixes :=
   let l := match getList? j "asis" with | some l => l.filterMap asStr? | none => []
   ⟨!l.contains "F12", !l.contains "F13", !l.contains "F14", !l.contains "F15", !l.contains "F16"⟩
 
+
+/-- `"affine": [gap_start, gap_extend, default_mismatch]` or null/absent = default branch -/
+def affine? (j : Json) : Option AffineCfg :=
+  match getNatList? j "affine" with
+  | some [a, b, c] => some ⟨a, b, c, false⟩
+  | some [a, b, c, f] => some ⟨a, b, c, f != 0⟩
+  | _ => none
+
+def ofQTriples (l : List (Nat × Nat × Int)) : Json :=
+  ofList (fun t => Json.arr #[ofNat t.1, ofNat t.2.1, ofInt t.2.2]) l
+
+def optRestrictedList? (j : Json) (k : String) : Option (Option (List (List Nat))) :=
+  match j.getObjVal? k with
+  | .ok Json.null => some none
+  | .ok v => (natListList? v).map some
+  | _ => some none
+
+def handleAffine (op : String) (j : Json) : Option Json :=
+  let fx := fixes j
+  if op == "c06.affine" then
+    -- edit_distance_affine_gap(query, ref, mismatch_cost, gs, ge); "spec": also the brute-force minimum
+    match getSeq? j "query", getSeq? j "ref", getNatList? j "mismatch", getNat? j "gs", getNat? j "ge" with
+    | some q, some r, some mm, some gs, some ge =>
+      let qs : QSeq := q.zip mm
+      let base := [("dist", ofNat (editDistanceAffine gs ge qs r)), ("dp", ofNat (affineDP gs ge qs r))]
+      let withSpec := match getBool? j "spec" with
+        | some true => base ++ [("spec", ofNat (affineSpec gs ge qs r))]
+        | _ => base
+      some (Json.mkObj withSpec)
+    | _, _, _, _, _ => some badInput
+  else if op == "c06.realign_q" then
+    match (getObj? j "variant").bind variant?, optNatList? j "restricted", getSeq? j "query", getCigar? j "cigar",
+          getNat? j "i", getNat? j "consumed", getInt? j "query_pos", getSeq? j "reference", getNat? j "overhang" with
+    | some v, some r, some q, some c, some i, some k, some qp, some rf, some oh =>
+      some (match realignQ fx.f14 (affine? j) v r q c i k qp rf oh with
+        | .ok (some a) => Json.arr #[ofNat a.1, ofInt a.2]
+        | .ok none => Json.null
+        | .error e => Json.mkObj [("err", errJson e)])
+    | _, _, _, _, _, _, _, _, _ => some badInput
+  else if op == "c06.detect_ref_q" then
+    match getVariants? j "variants", optRestrictedList? j "restricted", getNat? j "j", getNat? j "ref_start",
+          getCigar? j "cigar", getSeq? j "query", getSeq? j "reference", getNat? j "overhang" with
+    | some vs, some rs, some jj, some st, some c, some q, some rf, some oh =>
+      let r := detectRefQ fx.f14 (affine? j) vs rs jj st c q rf oh
+      some (Json.mkObj [("out", ofQTriples r.1), ("err", optErr r.2)])
+    | _, _, _, _, _, _, _, _ => some badInput
+  else none
+
+
+/-! ### `ReadSetReader.read` -/
+
+def optStr? (j : Json) (k : String) : Option (Option String) :=
+  match j.getObjVal? k with
+  | .ok Json.null => some none
+  | .ok (Json.str s) => some (some s)
+  | .ok _ => none
+  | _ => some none
+
+def optInt? (j : Json) (k : String) : Option (Option Int) :=
+  match j.getObjVal? k with
+  | .ok Json.null => some none
+  | .ok v => (asInt? v).map some
+  | _ => some none
+
+def optCigar? (j : Json) (k : String) : Option (Option Cigar) :=
+  match j.getObjVal? k with
+  | .ok Json.null => some none
+  | .ok v => (cigar? v).map some
+  | _ => some none
+
+def aln? (sid : Nat) (j : Json) : Option Aln := do
+  some ⟨← getStr? j "name", ← getNat? j "flag", ← getNat? j "mapq", ← optStr? j "rg", ← getNat? j "start",
+        ← optCigar? j "cigar", (← optStr? j "query").map String.toList, ← optNatList? j "quals",
+        (getStr? j "bx").getD "", (getInt? j "hp").getD (-1), ← optInt? j "ps", sid⟩
+
+def source? (sid : Nat) (j : Json) : Option Source := do
+  let rgs ← (← getList? j "rgs").mapM (fun g => do
+    match ← asArr? g with
+    | [Json.str i, Json.null] => some (i, none)
+    | [Json.str i, Json.str sm] => some (i, some sm)
+    | _ => none)
+  let alns ← (← getList? j "alns").mapM (aln? sid)
+  some ⟨rgs, alns⟩
+
+def sources? (j : Json) : Option (List Source) := do
+  let l ← getList? j "sources"
+  (enumFrom 0 l).mapM (fun p => source? p.1 p.2)
+
+def region? (j : Json) : Option Region := do
+  match ← asArr? j with
+  | [a, Json.null] => some (← asNat? a, none)
+  | [a, b] => some (← asNat? a, some (← asNat? b))
+  | _ => none
+
+def regions? (j : Json) : Option (Option (List Region)) :=
+  match j.getObjVal? "regions" with
+  | .ok Json.null => some none
+  | .ok v => ((asArr? v).bind (·.mapM region?)).map some
+  | _ => some none
+
+def readCfg? (j : Json) : Option ReadCfg := do
+  let c ← getObj? j "cfg"
+  some ⟨← getNat? c "mapq", ← getBool? c "duplicates", ← getBool? c "supplementary", ← getInt? c "threshold",
+        ← getNat? c "overhang", affine? c, fixes j, (getBool? c "skip_noseq").getD false,
+        (getBool? c "tolerate_norg").getD false⟩
+
+def rerrJson : RErr → Json
+  | .det e => errJson e
+  | .typeError => Json.str "TypeError"
+  | .keyError => Json.str "KeyError"
+  | .sampleNotFound => Json.str "SampleNotFoundError"
+  | .psValue => Json.str "ValueError"
+
+def ofReadOut (r : ReadOut) : Json :=
+  Json.mkObj [("name", Json.str r.name), ("source", ofNat r.sourceId), ("mapq", ofNat r.mapq), ("start", ofInt r.refStart),
+              ("bx", Json.str r.bx), ("hp", ofInt r.hp), ("ps", ofInt r.ps), ("variants", ofQTriples r.variants)]
+
+def handleRead (op : String) (j : Json) : Option Json :=
+  if op == "c06.read" || op == "c06.usable" then
+    match readCfg? j, sources? j, optStr? j "sample", regions? j with
+    | some cfg, some srcs, some sample, some regions =>
+      if op == "c06.usable" then
+        let st := usableStream cfg srcs sample regions
+        some (Json.mkObj [("usable", ofList (fun (a : Aln) => Json.arr #[ofNat a.sourceId, Json.str a.name, ofNat a.refStart, ofNat a.flag]) (oks st)),
+                          ("err", match firstError st with | some e => rerrJson e | none => Json.null)])
+      else
+        match getVariants? j "variants", optStr? j "reference" with
+        | some vs, some rf =>
+          some (match readModel cfg srcs sample regions vs (rf.map String.toList) with
+            | .ok reads => Json.mkObj [("reads", ofList ofReadOut reads), ("err", Json.null)]
+            | .error e => Json.mkObj [("reads", Json.null), ("err", rerrJson e)])
+        | _, _ => some badInput
+    | _, _, _, _ => some badInput
+  else if op == "c06.has_reference" then
+    match (getList? j "references").bind (·.mapM (fun l => (asArr? l).bind (·.mapM asStr?))), getStr? j "chromosome" with
+    | some refs, some c => some (Json.bool (hasReference refs c))
+    | _, _ => some badInput
+  else none
+
 def handle (op : String) (j : Json) : Option Json :=
   let fx := fixes j
+  match handleAffine op j with
+  | some r => some r
+  | none =>
+  match handleRead op j with
+  | some r => some r
+  | none =>
   if op == "c06.iter" then
     match getNatList? j "positions", getNat? j "j", getNat? j "ref_start", getCigar? j "cigar" with
     | some ps, some jj, some st, some c =>
